@@ -177,6 +177,7 @@ func cmdCheck(args []string) {
 		entry string
 		f     *gosym.Failure
 		count int
+		alts  []*gosym.Failure
 	}
 	var fails []found
 	var perEntry []map[string]interface{}
@@ -187,7 +188,7 @@ func cmdCheck(args []string) {
 		if fn == nil {
 			fatal(fmt.Errorf("no such harness entry %s", es.Entry))
 		}
-		cfg := &gosym.Config{Workers: *workers, MaxSteps: es.MaxSteps, MaxPaths: es.MaxPaths, SolverMs: 10000, Seed: seed, Samples: 4, OrderSites: es.OrderSites, Tier: *tier}
+		cfg := &gosym.Config{Workers: *workers, MaxSteps: es.MaxSteps, MaxPaths: es.MaxPaths, SolverMs: 10000, Seed: seed, Samples: 4, OrderSites: es.OrderSites, Tier: *tier, RecursiveRLock: false}
 		if cfg.MaxSteps == 0 {
 			cfg.MaxSteps = 3000000
 		}
@@ -255,7 +256,7 @@ func cmdCheck(args []string) {
 		}
 		sort.Strings(keys)
 		for _, k := range keys {
-			fails = append(fails, found{es.Entry, rep.Failures[k], rep.FailCount[k]})
+			fails = append(fails, found{es.Entry, rep.Failures[k], rep.FailCount[k], rep.FailAlts[k]})
 		}
 		perEntry = append(perEntry, map[string]interface{}{"entry": es.Entry, "bound": es.Bound, "paths": rep.Paths, "completed": rep.Completed,
 			"incomplete": rep.Incomplete, "unsupported": rep.Aborted, "assume_pruned": rep.AssumePruned, "decisions": rep.Decisions,
@@ -308,6 +309,26 @@ func cmdCheck(args []string) {
 				}
 				detail = res.Detail
 				confirmed = res.Failed
+			}
+			// the first counterexample of this kind did not reproduce: try the ones found on other paths (the
+			// first may owe its existence to a modelling artefact while the others are real)
+			for _, alt := range fd.alts {
+				if confirmed || f.Sched {
+					break
+				}
+				apath := strings.TrimSuffix(rpath, ".json") + "-alt.json"
+				af := rf
+				af.Path, af.Nondet, af.Observe, af.Model = alt.Path, alt.Nondet, alt.Observe, alt.Model
+				ab, _ := json.MarshalIndent(af, "", " ")
+				os.WriteFile(apath, ab, 0o644)
+				res := rp.Run(fd.entry, alt.Nondet, apath)
+				if res.Err == nil && res.Failed {
+					confirmed = true
+					detail = res.Detail
+					rpath = apath
+				} else {
+					os.Remove(apath)
+				}
 			}
 		}
 		var kf *knownFinding
